@@ -84,7 +84,9 @@ def _registry():
     reg(M + 'subm', subm, flow='subm', alias=True)
     reg(M + 'hitmiss', lambda g, nd: ([g.u8(g.shape(2, 3), 1) if g.r.random() < 0.6 else g.b(g.shape(2, 3)), g.ints((3, 3), 0, 2, np.uint8)], {}),
         dims=(2,), flow='hitmiss', res=None)
-    reg(M + 'majority_filter', lambda g, nd: ([g.b(g.shape(2, 3))], {}), dims=(2,), res='bool')
+    # also images with an axis shorter than the window (the kernel returns early: the buffer must still hold the result)
+    reg(M + 'majority_filter', lambda g, nd: ([g.b(g.shape(2, 3)) if g.r.random() < 0.6 else g.b((g.r.randint(1, 2), g.r.randint(1, 7))[::g.r.choice([1, -1])])],
+                                             {'N': g.r.choice([3, 3, 5])}), dims=(2,), res='bool')
 
     def ext(g, nd):
         f = g.fl(g.shape(nd, 2), 0, 3) if g.r.random() < 0.3 else g.img(g.shape(nd, 2))
@@ -195,6 +197,9 @@ def _mk_out(variant, shape, dtype, g, args, e):
             if s2 == shape:
                 return None
         return _carve(s2, dtype, slack=n0), False
+    if 'contig' in e['req'] and 'dtype' not in e['req'] and variant in ('strided', 'negstride', 'fortran') and g.r.random() < 0.6:
+        # the function lets `out` choose the dtype (zoom): a non-contiguous buffer of ANOTHER dtype is just as invalid
+        dtype = np.dtype(g.r.choice([np.float32, np.int32, np.uint8, np.int16]))
     if variant == 'strided':
         big = _carve(tuple(2 * s for s in shape), dtype)
         v = big[tuple(slice(None, None, 2) for _ in shape)]
